@@ -98,9 +98,35 @@ Record rune_chunk (ch : bytes) (r : N) : Prop := {
 Lemma is_cont_spec b : is_cont b = true <-> 128 <= b <= 191.
 Proof. unfold is_cont. lia. Qed.
 
-Ltac enc_ifs :=
-  repeat (match goal with |- context [if ?c then _ else _] => destruct c eqn:? end);
-  try (exfalso; lia); repeat f_equal; apply Nbyte_eq; lia.
+Lemma enc_rune_1 r c : r = byteN c -> r < 128 -> enc_rune r = [c].
+Proof. intros -> H. unfold enc_rune. replace (byteN c <? 128) with true by lia. now rewrite Nbyte_byteN. Qed.
+
+Lemma enc_rune_2 r c c1 : 128 <= r < 2048 -> 192 + r / 64 = byteN c -> 128 + r mod 64 = byteN c1 ->
+  enc_rune r = [c; c1].
+Proof.
+  intros H Q0 Q1. unfold enc_rune. rewrite Q0, Q1, !Nbyte_byteN.
+  replace (r <? 128) with false by lia. replace (r <? 2048) with true by lia. reflexivity.
+Qed.
+
+Lemma enc_rune_3 r c c1 c2 : 2048 <= r < 65536 -> ~ (55296 <= r <= 57343) ->
+  224 + r / 4096 = byteN c -> 128 + (r / 64) mod 64 = byteN c1 -> 128 + r mod 64 = byteN c2 ->
+  enc_rune r = [c; c1; c2].
+Proof.
+  intros H NS Q0 Q1 Q2. unfold enc_rune, is_surrogate. rewrite Q0, Q1, Q2, !Nbyte_byteN.
+  replace (r <? 128) with false by lia. replace (r <? 2048) with false by lia.
+  replace ((1114111 <? r) || (55296 <=? r) && (r <=? 57343)) with false by lia.
+  replace (r <? 65536) with true by lia. reflexivity.
+Qed.
+
+Lemma enc_rune_4 r c c1 c2 c3 : 65536 <= r <= 1114111 ->
+  240 + r / 262144 = byteN c -> 128 + (r / 4096) mod 64 = byteN c1 -> 128 + (r / 64) mod 64 = byteN c2 ->
+  128 + r mod 64 = byteN c3 -> enc_rune r = [c; c1; c2; c3].
+Proof.
+  intros H Q0 Q1 Q2 Q3. unfold enc_rune, is_surrogate. rewrite Q0, Q1, Q2, Q3, !Nbyte_byteN.
+  replace (r <? 128) with false by lia. replace (r <? 2048) with false by lia.
+  replace ((1114111 <? r) || (55296 <=? r) && (r <=? 57343)) with false by lia.
+  replace (r <? 65536) with false by lia. reflexivity.
+Qed.
 
 Lemma dec_rune_chunk c s' :
   dec_is_error (dec_rune (c :: s')) = false ->
@@ -115,73 +141,154 @@ Proof.
     exists [c], s'. cbn [fst snd length app]. split; [reflexivity|]. split; [|reflexivity].
     constructor.
     - intros t. cbn [app]. unfold dec_rune. cbv zeta. now rewrite Easc.
-    - unfold enc_rune. rewrite Easc. now rewrite Nbyte_byteN.
+    - apply enc_rune_1; [reflexivity|lia].
     - unfold dec_is_error. cbn [fst snd]. unfold rune_error. lia.
-    - left. exists c. split; [reflexivity|]. split; [|reflexivity]. clear NE. lia. }
+    - left. exists c. split; [reflexivity|]. split; [lia|reflexivity]. }
   destruct (lead_info (byteN c)) as [[[sz lo] hi]|] eqn:EL; [|discriminate NE].
-  apply lead_info_spec in EL. destruct EL as (Hlo & Hhi & EL).
+  assert (EL' := EL).
+  apply lead_info_spec in EL'. destruct EL' as (Hlo & Hhi & EL').
   destruct s' as [|c1 s2]; [discriminate NE|].
   assert (B1 := byteN_lt c1).
   destruct ((byteN c1 <? lo) || (hi <? byteN c1)) eqn:E1; [discriminate NE|].
-  destruct EL as [(-> & R0 & -> & ->)|[(-> & R0 & X0 & XD)|(-> & R0 & X0 & X4)]].
+  destruct EL' as [(-> & R0 & -> & ->)|[(-> & R0 & X0 & XD)|(-> & R0 & X0 & X4)]].
   - (* two bytes *)
     cbn [Nat.eqb] in *. cbn [fst snd] in *.
     destruct (enc2_arith (byteN c) (byteN c1)) as (Rr & Q0 & Q1); [lia|lia|]. cbv zeta in *.
     exists [c; c1], s2. split; [reflexivity|]. split; [|reflexivity].
+    clear NE. set (r := byteN c mod 32 * 64 + byteN c1 mod 64) in *.
     constructor.
-    + intros t. cbn [app length]. unfold dec_rune. cbv zeta. rewrite Easc.
-      replace (lead_info (byteN c)) with (Some (2%nat, 128, 191)).
-      2:{ unfold lead_info.
-          repeat match goal with |- context [if ?c then _ else _] => destruct c eqn:? end; try reflexivity; lia. }
-      rewrite E1. reflexivity.
-    + unfold enc_rune. enc_ifs.
-    + reflexivity.
-    + right. repeat split; [repeat constructor; lia| lia | cbn; lia].
+    + intros t. cbn [app length]. unfold dec_rune. cbv zeta. rewrite Easc, EL, E1. reflexivity.
+    + clearbody r. now apply enc_rune_2.
+    + unfold dec_is_error. cbn [snd length Nat.eqb]. apply andb_false_r.
+    + clearbody r. right. repeat split; [repeat constructor; lia| lia | cbn; lia].
   - (* three bytes *)
     cbn [Nat.eqb] in *.
     destruct s2 as [|c2 s3]; [discriminate NE|].
     assert (B2 := byteN_lt c2).
     destruct (is_cont (byteN c2)) eqn:E2; cbn [negb] in *; [|discriminate NE].
-    apply is_cont_spec in E2. cbn [fst snd] in *.
+    assert (E2' := E2). apply is_cont_spec in E2'. cbn [fst snd] in *.
     destruct (enc3_arith (byteN c) (byteN c1) (byteN c2) lo hi) as (Rr & NS & Q0 & Q1 & Q2); try lia.
     cbv zeta in *.
     exists [c; c1; c2], s3. split; [reflexivity|]. split; [|reflexivity].
+    clear NE. set (r := byteN c mod 16 * 4096 + byteN c1 mod 64 * 64 + byteN c2 mod 64) in *.
     constructor.
-    + intros t. cbn [app length]. unfold dec_rune. cbv zeta. rewrite Easc.
-      assert (EL : exists lo' hi', lead_info (byteN c) = Some (3%nat, lo', hi') /\
-                   ((byteN c1 <? lo') || (hi' <? byteN c1)) = false).
-      { unfold lead_info.
-        repeat match goal with |- context [if ?c then _ else _] => destruct c eqn:? end;
-          try lia; do 2 eexists; (split; [reflexivity|]); lia. }
-      destruct EL as (lo' & hi' & -> & ->). cbn [Nat.eqb].
-      replace (is_cont (byteN c2)) with true by (symmetry; apply is_cont_spec; lia). reflexivity.
-    + unfold enc_rune, is_surrogate. enc_ifs.
-    + reflexivity.
-    + right. repeat split; [repeat constructor; lia| lia | cbn; lia].
+    + intros t. cbn [app length]. unfold dec_rune. cbv zeta. rewrite Easc, EL, E1, E2. reflexivity.
+    + clearbody r. now apply enc_rune_3.
+    + unfold dec_is_error. cbn [snd length Nat.eqb]. apply andb_false_r.
+    + clearbody r. right. repeat split; [repeat constructor; lia| lia | cbn; lia].
   - (* four bytes *)
     cbn [Nat.eqb] in *.
     destruct s2 as [|c2 s3]; [discriminate NE|].
     assert (B2 := byteN_lt c2).
     destruct (is_cont (byteN c2)) eqn:E2; cbn [negb] in *; [|discriminate NE].
-    apply is_cont_spec in E2.
+    assert (E2' := E2). apply is_cont_spec in E2'.
     destruct s3 as [|c3 s4]; [discriminate NE|].
     assert (B3 := byteN_lt c3).
     destruct (is_cont (byteN c3)) eqn:E3; cbn [negb] in *; [|discriminate NE].
-    apply is_cont_spec in E3. cbn [fst snd] in *.
+    assert (E3' := E3). apply is_cont_spec in E3'. cbn [fst snd] in *.
     destruct (enc4_arith (byteN c) (byteN c1) (byteN c2) (byteN c3) lo hi) as (Rr & Q0 & Q1 & Q2 & Q3); try lia.
     cbv zeta in *.
     exists [c; c1; c2; c3], s4. split; [reflexivity|]. split; [|reflexivity].
+    clear NE.
+    set (r := byteN c mod 8 * 262144 + byteN c1 mod 64 * 4096 + byteN c2 mod 64 * 64 + byteN c3 mod 64) in *.
     constructor.
-    + intros t. cbn [app length]. unfold dec_rune. cbv zeta. rewrite Easc.
-      assert (EL : exists lo' hi', lead_info (byteN c) = Some (4%nat, lo', hi') /\
-                   ((byteN c1 <? lo') || (hi' <? byteN c1)) = false).
-      { unfold lead_info.
-        repeat match goal with |- context [if ?c then _ else _] => destruct c eqn:? end;
-          try lia; do 2 eexists; (split; [reflexivity|]); lia. }
-      destruct EL as (lo' & hi' & -> & ->). cbn [Nat.eqb].
-      replace (is_cont (byteN c2)) with true by (symmetry; apply is_cont_spec; lia).
-      replace (is_cont (byteN c3)) with true by (symmetry; apply is_cont_spec; lia). reflexivity.
-    + unfold enc_rune, is_surrogate. enc_ifs.
-    + reflexivity.
-    + right. repeat split; [repeat constructor; lia| lia | cbn; lia].
+    + intros t. cbn [app length]. unfold dec_rune. cbv zeta. rewrite Easc, EL, E1, E2, E3. reflexivity.
+    + clearbody r. now apply enc_rune_4.
+    + unfold dec_is_error. cbn [snd length Nat.eqb]. apply andb_false_r.
+    + clearbody r. right. repeat split; [repeat constructor; lia| lia | cbn; lia].
+Qed.
+
+(** a chunk is not empty, and an erroneous position is a non-ASCII byte *)
+Lemma rune_chunk_len ch r : rune_chunk ch r -> (1 <= length ch)%nat.
+Proof. intros [_ _ _ [(c & -> & _)|(_ & _ & H)]]; cbn; lia. Qed.
+
+Lemma dec_error_high c s' : dec_is_error (dec_rune (c :: s')) = true -> 128 <= byteN c.
+Proof.
+  unfold dec_rune. cbv zeta. destruct (byteN c <? 128) eqn:E; [|lia].
+  unfold dec_is_error, rune_error. cbn [fst snd]. lia.
+Qed.
+
+(** ** segmentation of an arbitrary byte string *)
+Inductive segs : bytes -> Prop :=
+| segs_nil : segs []
+| segs_bad c t : dec_is_error (dec_rune (c :: t)) = true -> segs t -> segs (c :: t)
+| segs_ok ch r t : rune_chunk ch r -> segs t -> segs (ch ++ t).
+
+Lemma segs_all s : segs s.
+Proof.
+  remember (length s) as n eqn:L. revert s L.
+  induction n as [n IH] using lt_wf_ind. intros s L.
+  destruct s as [|c s']; [constructor|].
+  destruct (dec_is_error (dec_rune (c :: s'))) eqn:E.
+  - apply segs_bad; [exact E|]. apply (IH (length s')); cbn in L; [lia|reflexivity].
+  - destruct (dec_rune_chunk c s' E) as (ch & t & Es & RC & _). rewrite Es.
+    apply segs_ok with (r := fst (dec_rune (c :: s'))); [exact RC|].
+    apply (IH (length t)); [|reflexivity].
+    apply rune_chunk_len in RC. rewrite L, Es, app_length. lia.
+Qed.
+
+(** the head of [ch ++ t] for a chunk *)
+Lemma rune_chunk_cons ch r : rune_chunk ch r -> exists c tl, ch = c :: tl /\ length tl = (length ch - 1)%nat.
+Proof.
+  intros RC. apply rune_chunk_len in RC. destruct ch as [|c tl]; cbn in *; [lia|].
+  exists c, tl. split; [reflexivity|lia].
+Qed.
+
+(** ** skip-counter lemmas *)
+Lemma valid_go_skip l t : valid_go (length l) (l ++ t) = valid_go 0 t.
+Proof. induction l as [|c l IH]; [reflexivity|]. cbn [length app valid_go]. exact IH. Qed.
+
+Lemma sanitize_go_skip l t : sanitize_go (length l) (l ++ t) = sanitize_go 0 t.
+Proof. induction l as [|c l IH]; [reflexivity|]. cbn [length app sanitize_go]. exact IH. Qed.
+
+Lemma firstn_chunk (ch t : bytes) : firstn (length ch) (ch ++ t) = ch.
+Proof. rewrite firstn_app, Nat.sub_diag, firstn_all. cbn. apply app_nil_r. Qed.
+
+Lemma valid_go_bad c t : dec_is_error (dec_rune (c :: t)) = true -> valid_go 0 (c :: t) = false.
+Proof. intros E. cbn [valid_go]. now rewrite E. Qed.
+
+Lemma valid_go_chunk ch r t : rune_chunk ch r -> valid_go 0 (ch ++ t) = valid_go 0 t.
+Proof.
+  intros RC. destruct (rune_chunk_cons ch r RC) as (c & tl & -> & Ltl).
+  cbn [app valid_go]. change (c :: tl ++ t) with ((c :: tl) ++ t).
+  rewrite (rc_dec _ _ RC), (rc_noerr _ _ RC). cbn [snd]. rewrite <- Ltl. apply valid_go_skip.
+Qed.
+
+Lemma sanitize_go_bad c t : dec_is_error (dec_rune (c :: t)) = true ->
+  sanitize_go 0 (c :: t) = rune_error_bytes ++ sanitize_go 0 t.
+Proof. intros E. cbn [sanitize_go]. now rewrite E. Qed.
+
+Lemma sanitize_go_chunk ch r t : rune_chunk ch r -> sanitize_go 0 (ch ++ t) = ch ++ sanitize_go 0 t.
+Proof.
+  intros RC. destruct (rune_chunk_cons ch r RC) as (c & tl & -> & Ltl).
+  cbn [app sanitize_go]. change (c :: tl ++ t) with ((c :: tl) ++ t).
+  rewrite (rc_dec _ _ RC), (rc_noerr _ _ RC). cbn [snd]. rewrite firstn_chunk.
+  cbn [app]. f_equal. f_equal. rewrite <- Ltl. apply sanitize_go_skip.
+Qed.
+
+(** sanitising a valid string changes nothing *)
+Lemma sanitize_valid s : valid_utf8 s = true -> sanitize_utf8 s = s.
+Proof.
+  unfold valid_utf8, sanitize_utf8. induction (segs_all s) as [|c t E _ IH|ch r t RC _ IH]; intros V.
+  - reflexivity.
+  - rewrite valid_go_bad in V by exact E. discriminate.
+  - rewrite (valid_go_chunk _ _ _ RC) in V. rewrite (sanitize_go_chunk _ _ _ RC), IH by exact V. reflexivity.
+Qed.
+
+(** the sanitised string is valid *)
+Lemma rune_error_chunk : rune_chunk rune_error_bytes rune_error.
+Proof.
+  constructor.
+  - intros t. reflexivity.
+  - reflexivity.
+  - reflexivity.
+  - right. repeat split; [repeat constructor; vm_compute; discriminate|vm_compute; discriminate|cbn; lia].
+Qed.
+
+Lemma sanitize_is_valid s : valid_utf8 (sanitize_utf8 s) = true.
+Proof.
+  unfold valid_utf8, sanitize_utf8. induction (segs_all s) as [|c t E _ IH|ch r t RC _ IH].
+  - reflexivity.
+  - rewrite sanitize_go_bad by exact E. rewrite (valid_go_chunk _ _ _ rune_error_chunk). exact IH.
+  - rewrite (sanitize_go_chunk _ _ _ RC), (valid_go_chunk _ _ _ RC). exact IH.
 Qed.
